@@ -16,6 +16,7 @@ pub(crate) fn all() -> Vec<Model> {
     cursor_models(&mut v);
     cursor_two_rewinders(&mut v);
     frontier_models(&mut v);
+    frontier_seq_models(&mut v);
     timestamp_models(&mut v);
     protocol_models(&mut v);
     dependency_models(&mut v);
@@ -35,6 +36,7 @@ fn cursor_models(v: &mut Vec<Model>) {
                 v.push(Model {
                     id: format!("c15-cursor/claimers{claimers}/start{start}/rewind{target}"),
                     property: "C15",
+            seq: false,
                     threads: claimers + 2,
                     describe: format!(
                         "{claimers} claimer(s) drain claim_before({LIMIT}) from position {start} while one thread rewinds to {target}"
@@ -100,6 +102,7 @@ fn cursor_two_rewinders(v: &mut Vec<Model>) {
         v.push(Model {
             id: format!("c15-cursor/two-rewinds/{t1}+{t2}"),
             property: "C15",
+            seq: false,
             threads: 4,
             describe: format!("one claimer drains from position {LIMIT} while two threads rewind to {t1} and {t2}: the lower target wins whatever the order"),
             run: Box::new(move || {
@@ -162,6 +165,7 @@ fn frontier_models(v: &mut Vec<Model>) {
         v.push(Model {
             id: format!("c15-frontier/publish[{label}]"),
             property: "C15",
+            seq: false,
             threads,
             describe: format!("publishers complete executions [{label}] while a reader samples the frontier"),
             run: Box::new(move || {
@@ -209,6 +213,7 @@ fn frontier_models(v: &mut Vec<Model>) {
     v.push(Model {
         id: "c15-frontier/concurrent-readers".into(),
         property: "C15",
+            seq: false,
         threads: 4,
         describe: "two readers and one out-of-order publisher; both readers' frontiers are sound, the last one is complete".into(),
         run: Box::new(|| {
@@ -249,6 +254,119 @@ fn frontier_models(v: &mut Vec<Model>) {
 }
 
 // ------------------------------------------------------------------------------------------------
+// C15.2b the frontier over index ranges around machine-word sizes, sequentially
+// ------------------------------------------------------------------------------------------------
+// (seeded change C15b packed the executed flags 64 to a word and mis-scanned across a word
+// boundary: invisible on ranges of 64 or fewer, and needing no interleaving at all.) Bounded
+// exhaustive enumeration of completion orders against a boolean-vector reference: for every
+// prefix length K <= N, every hole set H of [0,K) with |H| <= 1 (|H| <= 2 for K within two of a
+// multiple of 64), the other indices of [0,K) completed in ascending and in descending order, then
+// the holes filled in every order. After every completion the frontier must equal the first
+// uncompleted index, and the validation claims handed out afterwards must all lie below it.
+
+fn frontier_seq_case(n: usize, order: &[usize]) {
+    let order = order.to_vec();
+    crate::ITERATIONS.fetch_add(1, std::sync::atomic::Ordering::Relaxed);
+    let mut b = loom::model::Builder::new();
+    b.max_branches = 1_000_000;
+    b.log = false;
+    b.check(move || {
+        let ctx = SchedulerContext::new(n);
+        let mut done = vec![false; n];
+        for &i in &order {
+            done[i] = true;
+            ctx.executed(i);
+            let first = done.iter().position(|d| !d).unwrap_or(n);
+            let f = ctx.execution_frontier();
+            assert_eq!(
+                f, first,
+                "frontier after completing {:?}.. of {n}: got {f}, first transaction without a completed execution is {first}",
+                &order[..order.len().min(6)]
+            );
+        }
+        let first = done.iter().position(|d| !d).unwrap_or(n);
+        let mut claims = 0;
+        while let Some(i) = ctx.next_validation_idx(n) {
+            assert!(i < first, "validation claim {i} at or beyond the first unexecuted transaction {first}");
+            claims += 1;
+            assert!(claims <= n);
+        }
+        assert_eq!(claims, first, "every executed transaction below the frontier is offered for validation once");
+    });
+}
+
+fn frontier_seq_models(v: &mut Vec<Model>) {
+    for n in [3usize, 9, 64, 65, 66, 130, 192, 200] {
+        v.push(Model {
+            id: format!("c15-frontier-seq/n{n}"),
+            property: "C15",
+            seq: true,
+            threads: 1,
+            describe: format!(
+                "sequential enumeration over {n} transactions: every prefix, every hole set of size <= 1 (<= 2 next to a multiple of 64; all permutations for n = 3), ascending and descending completion, every fill order; frontier = first uncompleted index after every completion"
+            ),
+            run: Box::new(move || {
+                if n <= 3 {
+                    // all permutations
+                    let mut idx: Vec<usize> = (0..n).collect();
+                    permute(&mut idx, 0, &mut |p| frontier_seq_case(n, p));
+                    return;
+                }
+                for k in 1..=n {
+                    let near = (k % 64 <= 2) || (k % 64 >= 62);
+                    let mut hole_sets: Vec<Vec<usize>> = vec![vec![]];
+                    for a in 0..k {
+                        // single holes: everywhere for small n, around word boundaries and the ends otherwise
+                        if n <= 66 || a < 3 || a + 3 >= k || a % 64 <= 1 || a % 64 >= 62 {
+                            hole_sets.push(vec![a]);
+                        }
+                    }
+                    if near {
+                        for a in 0..k {
+                            for b in a + 1..k {
+                                let interesting = |x: usize| x < 2 || x + 2 >= k || x % 64 <= 1 || x % 64 >= 62;
+                                if interesting(a) && interesting(b) {
+                                    hole_sets.push(vec![a, b]);
+                                }
+                            }
+                        }
+                    }
+                    for holes in hole_sets {
+                        for descending in [false, true] {
+                            let mut base: Vec<usize> = (0..k).filter(|i| !holes.contains(i)).collect();
+                            if descending {
+                                base.reverse();
+                            }
+                            let mut fills = vec![holes.clone()];
+                            if holes.len() == 2 {
+                                fills.push(vec![holes[1], holes[0]]);
+                            }
+                            for fill in fills {
+                                let mut order = base.clone();
+                                order.extend(fill);
+                                frontier_seq_case(n, &order);
+                            }
+                        }
+                    }
+                }
+            }),
+        });
+    }
+}
+
+fn permute(v: &mut Vec<usize>, k: usize, f: &mut dyn FnMut(&[usize])) {
+    if k == v.len() {
+        f(v);
+        return;
+    }
+    for i in k..v.len() {
+        v.swap(k, i);
+        permute(v, k + 1, f);
+        v.swap(k, i);
+    }
+}
+
+// ------------------------------------------------------------------------------------------------
 // C15.3 a validation that predates a covering rewind never makes its transaction final
 // ------------------------------------------------------------------------------------------------
 
@@ -270,6 +388,7 @@ fn timestamp_models(v: &mut Vec<Model>) {
         v.push(Model {
             id: format!("c15-timestamps/revalidators{revalidators}"),
             property: "C15",
+            seq: false,
             threads: revalidators + 3,
             describe: format!(
                 "tx 0 validated once; a re-execution rewinds validation to 0, {revalidators} worker(s) re-claim and re-validate, the finality reader applies the production eligibility test"
@@ -654,6 +773,7 @@ pub(crate) fn find(id: &str) -> Option<Model> {
     cursor_models(&mut v);
     cursor_two_rewinders(&mut v);
     frontier_models(&mut v);
+    frontier_seq_models(&mut v);
     timestamp_models(&mut v);
     dependency_models(&mut v);
     wait_models(&mut v);
@@ -675,6 +795,7 @@ fn protocol_model(len: usize, script: Vec<POp>) -> Model {
             Model {
                 id: format!("c15-protocol/len{len}/{label}"),
                 property: "C15",
+            seq: false,
                 threads: 4,
                 describe: format!(
                     "three-transaction chain: the script thread fails the validation of tx0 it holds, then runs [{label}] (cv = claim+validate, c = claim only, xI = re-execute I and self-validate, nI = re-execute I with a new write location); a validator holds a claim on tx2; the finality thread applies the production eligibility test with the carried lower bound; no transaction may become final on a superseded read"
@@ -898,6 +1019,7 @@ fn dependency_models(v: &mut Vec<Model>) {
             v.push(Model {
                 id: format!("c16-dependency/claimers{claimers}x{steps}/[{}]", script_label(&script)),
                 property: "C16",
+            seq: false,
                 threads: claimers + 2,
                 describe: format!(
                     "{claimers} claimers each run {steps} iterations of the worker loop over {n} txs with scripted outcomes while one committer publishes whatever prefix is executed; then the loop is drained sequentially: every tx must still be on offer"
@@ -978,6 +1100,7 @@ fn wait_models(v: &mut Vec<Model>) {
     v.push(Model {
         id: "c17-wait/one-notifier".into(),
         property: "C17",
+            seq: false,
         threads: 3,
         describe: "waiter registers and waits on a flag; one notifier publishes the flag then notifies".into(),
         run: Box::new(|| {
@@ -1007,6 +1130,7 @@ fn wait_models(v: &mut Vec<Model>) {
     v.push(Model {
         id: "c17-wait/two-notifiers".into(),
         property: "C17",
+            seq: false,
         threads: 4,
         describe: "waiter needs both conditions; two notifiers publish one each".into(),
         run: Box::new(|| {
@@ -1045,6 +1169,7 @@ fn wait_models(v: &mut Vec<Model>) {
     v.push(Model {
         id: "c17-wait/two-rounds".into(),
         property: "C17",
+            seq: false,
         threads: 3,
         describe: "counter goes 0 -> 1 -> 2 with a notification after each step; the waiter waits for 1, then for 2".into(),
         run: Box::new(|| {
@@ -1078,6 +1203,7 @@ fn wait_models(v: &mut Vec<Model>) {
     v.push(Model {
         id: "c17-wait/locked-condition".into(),
         property: "C17",
+            seq: false,
         threads: 3,
         describe: "the condition lives under a mutex (transaction status); the notifier updates it under the lock, then notifies".into(),
         run: Box::new(|| {
